@@ -1,12 +1,13 @@
 SPECIFICATION Spec
 CONSTANTS
- Fam = "gen"
- P1 = 1
+ Fam = "sensds"
+ P1 = 0
  P2 = 0
- Dev = {}
+ Dev = {"NoLabelCopy"}
 INVARIANT Shape
 INVARIANT Final
 INVARIANT RoundTrip
 INVARIANT OrigKept
 INVARIANT Laws
+PROPERTY Grows
 CHECK_DEADLOCK FALSE
